@@ -241,7 +241,7 @@ def main(argv=None):
     # deviations found by the oracle that no failed obligation explains (bounded stand-in speaking)
     if devs and not failed:
         for d in devs[:3]:
-            k = match_known(prop, d.get('obligation', 'oracle/' + d.get('case', '')), d)
+            k = match_known(prop, d.get('obligation') or ('oracle/' + str(d.get('case', ''))), d)
             if k is not None: res.known.append((k, None)); continue
             payload = dict(property=prop, obligation='oracle/' + str(d.get('case', '')), status='replayed', input=d.get('input'),
                            observed=d.get('observed'), expected=d.get('expected'),
